@@ -16,6 +16,9 @@ import functools
 import inspect
 import sys
 import textwrap
+import types as _types
+
+types_module = _types.ModuleType
 
 import z3
 
@@ -423,6 +426,14 @@ class Interp:
             r = self.handlers[key](self, args, kwargs)
             if r is not NotImplemented:
                 return r
+        bs = getattr(fn, "__self__", None)
+        if bs is not None and not inspect.ismethod(fn) and not isinstance(bs, (type, types_module)) and callable(fn):
+            # bound method of a builtin object (e.g. ",".join): handlers are keyed by the unbound method
+            unbound = getattr(type(bs), getattr(fn, "__name__", ""), None)
+            if unbound is not None and self.fn_key(unbound) in self.handlers:
+                r = self.handlers[self.fn_key(unbound)](self, [bs, *args], kwargs)
+                if r is not NotImplemented:
+                    return r
         if inspect.ismethod(fn):
             # bound method of a real object
             self_obj = fn.__self__
@@ -1185,6 +1196,12 @@ class Interp:
     def binop(self, op, a, b, inplace=False):
         from .sstr import SStr
 
+        def _symstr(x):
+            return isinstance(x, Sym) and x.ty is TStr
+
+        if op is ast.Add and getattr(self, "symstr_format", None) is not None and (
+                (_symstr(a) and isinstance(b, (str, SStr))) or (_symstr(b) and isinstance(a, (str, SStr))) or (_symstr(a) and _symstr(b))):
+            return SStr([self.symstr_format(x, None) if _symstr(x) else x for x in (a, b)])
         if op is ast.Add and (isinstance(a, SStr) or isinstance(b, SStr)):
             def conv(x):
                 if isinstance(x, (SStr, str)):
@@ -1420,6 +1437,10 @@ class Interp:
 
     def getattr(self, obj, name):
         if isinstance(obj, Sym):
+            mc = getattr(self, "method_contracts", None)
+            if mc and name in mc and isinstance(obj.ty, TData):
+                contract = mc[name]
+                return lambda *a, **k: contract.apply(self, None, [obj, *a], k)
             if isinstance(obj.ty, TData):
                 fam = obj.ty.family
                 # field common to all constructors at the same position -> no fork needed
